@@ -1090,3 +1090,66 @@ M("C20-no-warning", "C20", "R20.1", SP,
   """            warnings.warn('The target pDESy json file is not simulated. Some error will be occurred.Please call this function again after simulating the target project from pDESy json file.')
             return""",
   """            return""")
+
+# ---------------------------------------------------------------------------------------- C13
+M("C13-drop-conveyor-test", "C13", "R13.3", PJ,
+  """                                elif not component.placed_workplace in workplace.input_workplace_list:
+                                    conveyor_condition = False""",
+  """                                elif not component.placed_workplace in workplace.input_workplace_list:
+                                    conveyor_condition = True""")
+M("C13-can-put-always-true", "C13", "R13.3", WP,
+  """        can_put = False
+        if self.get_available_space_size() > component.space_size - error_tol:
+            can_put = True
+        return can_put""",
+  """        can_put = True
+        return can_put""")
+M("C13-forget-removal-from-old-workplace", "C13", "R13.2", PJ,
+  """                                elif pre_workplace is not None:
+                                    pre_workplace.remove_placed_component(component)
+                                component.set_placed_workplace(None)
+                                component.set_placed_workplace(workplace)
+                                workplace.set_placed_component(component)""",
+  """                                component.set_placed_workplace(None)
+                                component.set_placed_workplace(workplace)""")
+M("C13-never-call-leave-routine", "C13", "R13.4", PJ,
+  """        self.product.check_removing_placed_workplace()
+""", "")
+M("C13-direct-store-elsewhere", "C13", "R13.1", PD,
+  """        for c in removing_placed_workplace_component_set:
+            c.placed_workplace.remove_placed_component(c)
+            c.set_placed_workplace(None)""",
+  """        for c in removing_placed_workplace_component_set:
+            c.placed_workplace.remove_placed_component(c)
+            c.placed_workplace = None""")
+M("C13-move-without-is-ready", "C13", "R13.3", PJ,
+  """                if component.is_ready() and all((len(t.allocated_worker_list) == 0 for t in component.targeted_task_list)):""",
+  """                if all((len(t.allocated_worker_list) == 0 for t in component.targeted_task_list)):""")
+M("C13-move-ignores-same-step-allocation", "C13", "R13.7", PJ,
+  """                if component.is_ready() and all((len(t.allocated_worker_list) == 0 for t in component.targeted_task_list)):""",
+  """                if component.is_ready():""")
+M("C13-no-break-after-move", "C13", "R13.3", PJ,
+  """                                workplace.set_placed_component(component)
+                                break""",
+  """                                workplace.set_placed_component(component)""")
+M("C13-is-ready-ignores-working", "C13", "R13.3", CP,
+  """        if not all_none_flag and (not any_working_flag) and any_ready_flag:
+            return True""",
+  """        if not all_none_flag and any_ready_flag:
+            return True""")
+M("C13-leave-children-too", "C13", "R13.4", PD,
+  """        top_component_list = list(filter(lambda c: len(c.parent_component_list) == 0, self.component_list))""",
+  """        top_component_list = list(self.component_list)""")
+M("C13-can-put-ignores-used-space", "C13", "R13.3", WP,
+  """        use_space_size = sum([c.space_size for c in self.placed_component_list])
+        return self.max_space_size - use_space_size""",
+  """        return self.max_space_size""")
+M("C13-set-without-recursion", "C13", "R13.2", CP,
+  """        self.placed_workplace = placed_workplace
+        if set_to_all_children:
+            for child_c in self.child_component_list:
+                child_c.set_placed_workplace(placed_workplace, set_to_all_children=set_to_all_children)""",
+  """        self.placed_workplace = placed_workplace""")
+M("C13-leave-when-any-finished", "C13", "R13.4", PD,
+  """            all_finished_flag = all(map(lambda task: task.state == BaseTaskState.FINISHED, c.targeted_task_list))""",
+  """            all_finished_flag = any(map(lambda task: task.state == BaseTaskState.FINISHED, c.targeted_task_list))""")
